@@ -163,7 +163,8 @@ func runC07(a *A) {
 	a.Rule("shape/lossless-order-keys", 0, func() { a.ruleLosslessOrderKeys() }) // no float->int conversion today
 	a.Rule("whomay/having-binding", 3, func() { a.ruleHavingBinding() })
 	a.Rule("flow/delivered-batch-fresh", 7, func() { a.ruleDeliveredBatchFresh() })
-	a.Rule("shape/whole-call-slice", 4, func() { a.ruleWholeCallSlice("rsql", "aggregator") })
+	a.Rule("shape/whole-call-slice", 1, func() { a.ruleWholeCallSlice("rsql", "aggregator") })
+	a.Rule("shape/whole-call-regex", 5, func() { a.ruleWholeCallRegex("rsql", "aggregator", "stream") })
 	a.Rule("flow/expression-argument-registered", 3, func() { a.ruleExpressionArgumentRegistered() })
 	a.Rule("tables/clause-terminators", 12, func() { a.ruleClauseTerminators() })
 	a.Rule("flow/having-fails-closed", 2, func() { a.ruleHavingFailsClosed() })
@@ -1013,4 +1014,49 @@ func sameValueOrLoad(x, y ssa.Value) bool {
 		return true
 	}
 	return TermOf(x, nil).String() == TermOf(y, nil).String()
+}
+
+// ruleWholeCallRegex: the regular-expression form of the defect shape/whole-call-slice describes. A
+// pattern of the shape  name \( .* \) $  (an opening parenthesis, a greedy "anything", a closing
+// parenthesis at the end of the text) matches from the first "(" to the last ")", so it accepts
+// `sum(v) / (1 + 2)` as "one call": regular expressions cannot match parentheses. No pattern of that
+// shape may be compiled in the packages that classify SELECT items and aggregate calls.
+func (a *A) ruleWholeCallRegex(pkgs ...string) int {
+	inPkgs := map[*ssa.Package]bool{}
+	for _, p := range pkgs {
+		inPkgs[a.Pkg(p)] = true
+	}
+	greedy := regexp.MustCompile(`\\\(\.[*+]\\\)\$`) // the text  \(.*\)$  inside a pattern
+	n := 0
+	fns := append([]*ssa.Function{}, a.ModFuncs...)
+	for p := range inPkgs {
+		if p != nil {
+			if ini := p.Func("init"); ini != nil {
+				fns = append(fns, ini) // package-level pattern variables are compiled in the initialiser
+			}
+		}
+	}
+	for _, fn := range fns {
+		if !inPkgs[ssaPkgOf(fn)] || fn.Blocks == nil {
+			continue
+		}
+		allInstrs(fn, func(in ssa.Instruction) {
+			c, ok := in.(*ssa.Call)
+			if !ok {
+				return
+			}
+			name := calleeFull(&c.Call)
+			if name != "regexp.MustCompile" && name != "regexp.Compile" || len(c.Call.Args) != 1 {
+				return
+			}
+			pat := constText(c.Call.Args[0])
+			if pat == "" {
+				return
+			}
+			n++
+			a.Check(!greedy.MatchString(pat), fmt.Sprintf("%s#regex:%s", fname(fn), pat), in.Pos(), "the pattern does not span first '(' to last ')'",
+				"the pattern "+pat+" matches from the first '(' to the last ')' of the text: `f(x) op (y)` is taken for one call of f, and what follows the call is dropped or glued into its arguments")
+		})
+	}
+	return n
 }
